@@ -266,7 +266,7 @@ class STEPD(BaseWindow):
 
         if self.num_instances >= self._min_num_instances:
             statistic = self._calculate_statistic()
-            p_value = self._distribution.sf(np.abs(statistic))  # One-sided test
+            p_value = self._distribution.sf(statistic)  # One-sided test
 
             if p_value < self.config.alpha_d:  # type: ignore
                 # Drift case
